@@ -64,12 +64,23 @@ pub async fn propose(
     }
 }
 
+/// The last token in front of the cursor that is not a comment:
+/// comments do not change what can follow.
+fn token_before_skipping_comments(tokens: &[Token], position: usize) -> Option<&Token> {
+    let before = tokens.token_before(position)?.range.start;
+    tokens
+        .iter()
+        .take_while(|token| token.range.start <= before)
+        .filter(|token| !matches!(token.token_type, TokenType::Comment(_)))
+        .last()
+}
+
 fn complete_type(
     position: usize,
     tokens: &[Token],
     table: &GlobalTable,
 ) -> Option<Vec<CompletionItem>> {
-    tokens.token_before(position).and_then(|last_token| {
+    token_before_skipping_comments(tokens, position).and_then(|last_token| {
         use TokenType::*;
         match last_token.token_type {
             Eq => Some(vec![snippets::array(), items::array(), items::int()]),
@@ -90,7 +101,7 @@ fn complete_procedure(
     tokens: &[Token],
     table: &GlobalTable,
 ) -> Option<Vec<CompletionItem>> {
-    tokens.token_before(position).and_then(|last_token| {
+    token_before_skipping_comments(tokens, position).and_then(|last_token| {
         let in_signature = tokens
             .iter()
             .find(|token| matches!(token.token_type, TokenType::RParen | TokenType::LCurly))
@@ -157,7 +168,7 @@ fn complete_statements(
             (stmt, tokens)
         })
         .find(|(stmt, tokens)| {
-            if stmt.to_text_range(tokens).contains(&position) {
+            if range_without_leading_comments(stmt, tokens).contains(&position) {
                 true
             } else {
                 last_stmt_is_if = matches!(stmt.as_ref(), Statement::If(_));
@@ -179,11 +190,25 @@ fn complete_statements(
         )
 }
 
+/// The text range of a statement without the comments in front of it:
+/// a cursor between those comments and the first real token is not inside the statement yet.
+fn range_without_leading_comments(
+    stmt: &Reference<Statement>,
+    tokens: &[Token],
+) -> std::ops::Range<usize> {
+    let range = stmt.to_text_range(tokens);
+    let start = tokens
+        .iter()
+        .find(|token| !matches!(token.token_type, TokenType::Comment(_)))
+        .map_or(range.start, |token| token.range.start);
+    start..range.end
+}
+
 macro_rules! complete_branch {
     ($branch:expr, $position:expr, $tokens:expr, $last_token:expr, $lookup_table:expr) => {
         if let Some(stmt) = $branch {
             let tokens = stmt.info().slice(&$tokens[stmt.offset..]);
-            if stmt.to_text_range(tokens).contains(&$position) {
+            if range_without_leading_comments(stmt, tokens).contains(&$position) {
                 return complete_statement(
                     stmt,
                     $position,
